@@ -20,13 +20,13 @@ func init() {
 			"R-C10-2 back-off constants as loop facts (init: i < 50, wait 0 then min((i+1)·250ms, 3s); receiveRetry: i < 5, wait i·50ms; exhaustion returns a non-nil error); " +
 			"R-C10-3 every timer wait in the module sits in a select that also has a ctx.Done() case, no time.Sleep, bare receives only on Done()/Ready() channels; " +
 			"R-C10-4 advertise/monitor start every goroutine with eg.Go on an errgroup.WithContext group using the derived context, return eg.Wait's error; Listen interrupts the read on cancellation; a link event yields ErrLinkChange; " +
-			"R-C10-5 the error handed to init on re-dial is the one the task function returned R-C10-6 the failed read/write stays in the error chain (returned as is or %w-wrapped) in Listen, send and the task goroutines; R-C10-7 the Dial callbacks of Run return the task's error unchanged unless it is context.Canceled and panic only for nil; R-C10-8 linkStateWatcher(group ctx, watchC) runs under the task's errgroup, BuildTasks hands each task Watcher.Subscribe(own name, LinkDown), and the watcher waits whenever the channel is non-nil.",
+			"R-C10-5 the error handed to init on re-dial is the one the task function returned R-C10-6 the failed read/write stays in the error chain (returned as is or %w-wrapped) in Listen, send and the task goroutines; R-C10-7 the Dial callbacks of Run return the task's error unchanged unless it is context.Canceled and panic only for nil; R-C10-8 linkStateWatcher(group ctx, watchC) runs under the task's errgroup, BuildTasks hands each task Watcher.Subscribe(own name, LinkDown), and the watcher waits whenever the channel is non-nil; R-C10-9 every send of a request to the scheduler (listener callback, multicast loop) is an arm of a blocking select with ctx.Done(), so no goroutine of the task outlives a stopped scheduler; R-C10-10 the context Dial hands to the task function is its own ctx or one derived from it inside the same re-dial iteration.",
 		Assumptions: []string{
 			"Go type checker and go/ssa construction are correct",
 			"errgroup.WithContext cancels the derived context on the first non-nil error",
 			"SetReadDeadline with a past deadline makes a blocked ReadFrom return a timeout error",
 		},
-		NotCovered: []string{"time to stop (promptness)", "blocking sends on ipC/errC when the consumer has already exited", "behaviour of errgroup itself"},
+		NotCovered: []string{"time to stop (promptness)", "behaviour of errgroup itself"},
 		Run:        runC10,
 	})
 }
@@ -40,6 +40,7 @@ func runC10(c *Ctx) {
 	c10Backoff(c)
 	c10Waits(c)
 	c10FailTogether(c)
+	requestChannelSends(c, "R-C10-9")
 }
 
 func isErrorsCall(e *an.Expr, name string) bool {
@@ -202,7 +203,77 @@ func c10Classify(c *Ctx) {
 			}
 		}
 		c.R.Floor("R-C10-5", 1)
+		c10TaskContext(c, d)
 	}
+}
+
+// c10TaskContext (R-C10-10): the context handed to the task function on every
+// (re-)establishment is alive when the task starts: Dial's own ctx parameter,
+// or a context derived from it inside the same iteration of the re-dial loop.
+// A context derived once before the loop and cancelled after the first run
+// starts every re-established task already cancelled: Run reads that as a
+// shutdown and the interface silently stops being served.
+func c10TaskContext(c *Ctx, d *ssa.Function) {
+	n := 0
+	fnName := c.fname(d)
+	for _, f := range an.WithAnon(d) {
+		for _, b := range f.Blocks {
+			for _, in := range b.Instrs {
+				call, ok := in.(ssa.CallInstruction)
+				if !ok || call.Common().IsInvoke() {
+					continue
+				}
+				prm, ok := call.Common().Value.(*ssa.Parameter)
+				if !ok || prm.Parent() != d || len(call.Common().Args) != 2 {
+					continue
+				}
+				if _, isSig := prm.Type().Underlying().(*types.Signature); !isSig {
+					continue
+				}
+				n++
+				arg := call.Common().Args[0]
+				fact, ok2 := "", false
+				switch x := arg.(type) {
+				case *ssa.Parameter:
+					ok2 = x.Parent() == d && strings.HasSuffix(typeStr(x.Type()), "context.Context")
+					fact = "the task runs with Dial's own context parameter " + x.Name()
+				case *ssa.Extract:
+					mk, isCall := x.Tuple.(*ssa.Call)
+					obj := (*types.Func)(nil)
+					if isCall {
+						obj = an.CalleeObj(&mk.Call)
+					}
+					if obj == nil || obj.Pkg() == nil || obj.Pkg().Path() != "context" || !strings.HasPrefix(obj.Name(), "With") {
+						fact = "context of unrecognised origin"
+						break
+					}
+					parent, _ := mk.Call.Args[0].(*ssa.Parameter)
+					// innermost loop header that dominates the task call
+					var hdr *ssa.BasicBlock
+					for _, h := range f.Blocks {
+						if !h.Dominates(b) {
+							continue
+						}
+						for _, pr := range h.Preds {
+							if h.Dominates(pr) {
+								if hdr == nil || hdr.Dominates(h) {
+									hdr = h
+								}
+							}
+						}
+					}
+					perIter := hdr == nil || hdr.Dominates(mk.Block())
+					ok2 = parent != nil && parent.Parent() == d && perIter
+					fact = fmt.Sprintf("the task runs with context.%s(%v) created at %s; derived from Dial's ctx=%v; created inside the re-dial iteration=%v", obj.Name(), mk.Call.Args[0].Name(), c.pos(mk.Pos()), parent != nil, perIter)
+				default:
+					fact = fmt.Sprintf("context of unrecognised origin (%T)", arg)
+				}
+				c.R.Check(ok2, "R-C10-10", fnName+":task-context-live", fnName, c.pos(call.Pos()), fact,
+					"the task function receives Dial's ctx, or a context derived from it in the same iteration of the re-dial loop", "a re-established task starts with a context that is already cancelled (or can never be cancelled): the interface silently stops being served")
+			}
+		}
+	}
+	c.R.Check(n >= 1, "R-C10-10", fnName+":task-call-sites", fnName, c.pos(d.Pos()), fmt.Sprintf("%d call(s) of the task function", n), ">= 1", "anchor-missing")
 }
 
 func c10Backoff(c *Ctx) {
